@@ -223,5 +223,71 @@ Section PrimEqFull.
             (fun k a l => s_temp x k a l - eta * s_temp t k a l)
             (fun a l => s_lnps x a l - eta * s_lnps t a l)
             (s_tr x).
+
+  (** *** MoistPrimitiveEquations / MoistPrimitiveEquationsWithCloudMoisture . explicit_terms
+      Tracer order convention: tracer 0 = specific_humidity (cloud class: 1 = specific_cloud_liquid_water_content,
+      2 = specific_cloud_ice_water_content); every tracer (humidity included) is advected like in the dry class. *)
+  (** the additional nodal arrays: to_nodal(cos_lat_grad(q, clip=False)) and to_nodal(laplacian(lnps)) *)
+  Record MDiag := mkMDiag {
+    m_gqx : nat -> nat -> nat -> F; m_gqy : nat -> nat -> nat -> F; m_lap : nat -> nat -> F }.
+  Definition q_modal (s : State) : nat -> nat -> nat -> F := nth 0 (s_tr s) zero3.
+  Definition moist_diag (K : nat) (s : State) : MDiag :=
+    mkMDiag (to_nodal3 K (fun k => fst (gradm (q_modal s k))))
+            (to_nodal3 K (fun k => snd (gradm (q_modal s k))))
+            (sh_memo2 I J (to_nodal (lapm (s_lnps s)))).
+  Definition trn (d : Diag) (n : nat) (p : Wi) : nat -> F := tr_of (nth n (d_tr d) zero3) p.
+  Definition gq_of (t : nat -> nat -> nat -> F) (p : Wi) : nat -> F := fun k => t k (fst p) (snd p).
+  (** R*T' times the virtual-temperature factor: MoistPrimitiveEquations (cloud = false) or
+      MoistPrimitiveEquationsWithCloudMoisture (cloud = true) ._virtual_temperature *)
+  Definition rt_full (cloud : bool) (c : @PEcfg F) (m : @Moist F) (d : Diag) (p : Wi) : nat -> F :=
+    if cloud then rt_cloud c m (X_of d p) (trn d 0 p) (trn d 1 p) (trn d 2 p)
+    else rt_moist c m (X_of d p) (trn d 0 p).
+
+  Definition vort_of_h (cu cv hum : nat -> nat -> F) : nat -> nat -> F :=
+    clipm (fun a l => - curlm cu cv a l + hum a l).
+  Definition div_of_h (grav : F) (orog cu cv ke hum : nat -> nat -> F) : nat -> nat -> F :=
+    clipm (fun a l => - divm cu cv a l + - lapm ke a l + - grav * lapm orog a l + hum a l).
+  (** divergence_tendency_due_to_humidity on materialised modal arrays *)
+  Definition hum_div_of (geo dn : nat -> nat -> F) : nat -> nat -> F := fun a l => - lapm geo a l - dn a l.
+
+  Definition explicit_level_moist (cloud : bool) (c : @PEcfg F) (m : @Moist F) (grav : F) (orog : nat -> nat -> F)
+             (d : Diag) (md : MDiag) (r : nat) : Lev :=
+    let X := fun i j => X_of d (i, j) in
+    let q := fun i j => trn d 0 (i, j) in
+    let gqx := fun i j => gq_of (m_gqx md) (i, j) in
+    let gqy := fun i j => gq_of (m_gqy md) (i, j) in
+    let cu := tm (fun i j => combined_u c true (X i j) (rt_full cloud c m d (i, j)) r) in
+    let cv := tm (fun i j => combined_v c true (X i j) (rt_full cloud c m d (i, j)) r) in
+    let hcurl := tm (fun i j => humidity_curl_nodal c m (X i j) (gqx i j) (gqy i j) r) in
+    let ke := tm (fun i j => kinetic (X i j) r) in
+    let hgeo := tm (fun i j => humidity_geo_nodal c false m (X i j) (q i j) r) in
+    let hdn := tm (fun i j => humidity_div_nodal c m (X i j) (q i j) (gqx i j) (gqy i j) (m_lap md i j) r) in
+    let tmu := tm (fun i j => hsa_mu (X i j) (n_temp (X i j)) r) in
+    let tmv := tm (fun i j => hsa_mv (X i j) (n_temp (X i j)) r) in
+    let ttot := tm (fun i j => temp_nodal_total_moist c true m (X i j) (q i j) r) in
+    mkLev (sh_memo2 R L (vort_of_h cu cv hcurl))
+          (sh_memo2 R L (div_of_h grav orog cu cv ke (hum_div_of hgeo hdn)))
+          (sh_memo2 R L (scalar_of ttot tmu tmv))
+          (map (fun t =>
+                  let s := fun i j => tr_of t (i, j) in
+                  sh_memo2 R L (scalar_of (tm (fun i j => tracer_nodal_total c true (X i j) (s i j) r))
+                                          (tm (fun i j => hsa_mu (X i j) (s i j) r))
+                                          (tm (fun i j => hsa_mv (X i j) (s i j) r))))
+               (d_tr d)).
+
+  Definition explicit_terms_of_diag_moist (cloud : bool) (c : @PEcfg F) (m : @Moist F) (grav : F) (orog : nat -> nat -> F)
+             (d : Diag) (md : MDiag) : State :=
+    let lv := map (explicit_level_moist cloud c m grav orog d md) (seq 0 (cK c)) in
+    let ntr := length (d_tr d) in
+    mkState (fun k => l_vort (nth k lv lev0)) (fun k => l_div (nth k lv lev0)) (fun k => l_temp (nth k lv lev0))
+            (sh_memo2 R L (lnps_explicit c d))
+            (map (fun n => fun k => nth n (l_tr (nth k lv lev0)) (fun _ _ => 0)) (seq 0 ntr)).
+
+  (** MoistPrimitiveEquations.explicit_terms (cloud = false), MoistPrimitiveEquationsWithCloudMoisture (cloud = true) *)
+  Definition explicit_terms_full_moist (cloud : bool) (c : @PEcfg F) (m : @Moist F) (grav : F) (orog : nat -> nat -> F)
+             (s : State) : State :=
+    let d := diagnostic_state (cK c) s in
+    let md := moist_diag (cK c) s in
+    explicit_terms_of_diag_moist cloud c m grav orog d md.
   End WithGrid.
 End PrimEqFull.
